@@ -156,6 +156,21 @@ func disassembleModel(p *core.Program, vm *eng.VMModel) (map[string]disasmCase, 
 				if lid, ok := eng.Unparen(x.X).(*ast.Ident); ok && lid.Name == "ip" {
 					if x.Op == token.ADD {
 						c.dir = "fwd"
+						// ip + direction*int(a): the sign is a parameter of the printer, decided by
+						// the constant each case passes
+						if m, ok := eng.Unparen(x.Y).(*ast.BinaryExpr); ok && m.Op == token.MUL && fl.Type.Params != nil {
+							k := 0
+							for _, f := range fl.Type.Params.List {
+								for _, nm := range f.Names {
+									for _, side := range []ast.Expr{m.X, m.Y} {
+										if sid, ok := eng.Unparen(side).(*ast.Ident); ok && info.Uses[sid] == info.Defs[nm] {
+											c.dir = fmt.Sprintf("param:%d", k)
+										}
+									}
+									k++
+								}
+							}
+						}
 					} else if x.Op == token.SUB {
 						c.dir = "back"
 					}
@@ -198,6 +213,21 @@ func disassembleModel(p *core.Program, vm *eng.VMModel) (map[string]disasmCase, 
 						if c := clos[info.Uses[id]]; c != nil {
 							calls++
 							dc = disasmCase{c.readsArg, c.dir}
+							if strings.HasPrefix(c.dir, "param:") {
+								var pi int
+								fmt.Sscanf(c.dir, "param:%d", &pi)
+								dc.dir = "?"
+								if pi < len(call.Args) {
+									if tv, ok := info.Types[call.Args[pi]]; ok && tv.Value != nil {
+										switch tv.Value.ExactString() {
+										case "1":
+											dc.dir = "fwd"
+										case "-1":
+											dc.dir = "back"
+										}
+									}
+								}
+							}
 						} else if info.Uses[id] == readArg {
 							calls++
 							dc = disasmCase{true, ""}
@@ -464,6 +494,14 @@ func topRules(p *core.Program, r *core.Report, e *engines) {
 					nCast[x.Op+" "+x.Operand.Raw.ExactString()] = true
 					if !rawHandled(e, x.Op, x.Operand.Raw.ExactString()) {
 						ok, detail = false, fmt.Sprintf("%s is emitted with operand %s, for which its handler has no case: the value is left unconverted", x.Op, x.Operand.Raw.ExactString())
+					}
+				} else if x.Operand.Kind == "rawtable" {
+					// the operand comes from a constant table: every entry must be handled
+					for _, kv := range x.Operand.Table {
+						nCast[x.Op+" "+kv[1]] = true
+						if !rawHandled(e, x.Op, kv[1]) {
+							ok, detail = false, fmt.Sprintf("%s is emitted with operand %s (table entry %s), for which its handler has no case: the value is left unconverted", x.Op, kv[1], kv[0])
+						}
 					}
 				} else if x.Operand.Kind != "none" {
 					ok, detail = false, "unexpected operand kind at top level"
